@@ -80,6 +80,8 @@ pub type HeapIdx = DefaultKey;
 /// This should be called when creating a new reference to a heap object
 /// (e.g., copying a closure reference to another register).
 pub fn heap_retain(storage: &mut HeapStorage, idx: HeapIdx) {
+    #[cfg(mimium_verif)]
+    super::verif::record_heap(b'h', b'+', idx, storage.contains_key(idx), storage.get(idx).map_or(0, |o| o.refcount + 1));
     if let Some(obj) = storage.get_mut(idx) {
         obj.refcount += 1;
         log::trace!("heap_retain: {:?} refcount -> {}", idx, obj.refcount);
@@ -101,12 +103,16 @@ pub fn heap_retain(storage: &mut HeapStorage, idx: HeapIdx) {
 /// - `heap_release_closure` for closures with captured heap objects
 /// - Future: `heap_release_variant` for recursive variant types
 pub fn heap_release(storage: &mut HeapStorage, idx: HeapIdx) {
+    #[cfg(mimium_verif)]
+    super::verif::record_heap(b'h', b'-', idx, storage.contains_key(idx), storage.get(idx).map_or(0, |o| o.refcount.wrapping_sub(1)));
     if let Some(obj) = storage.get_mut(idx) {
         obj.refcount -= 1;
         log::trace!("heap_release: {:?} refcount -> {}", idx, obj.refcount);
 
         if obj.refcount == 0 {
             log::trace!("heap_release: freeing {idx:?}");
+            #[cfg(mimium_verif)]
+            super::verif::record_heap(b'h', b'F', idx, true, 0);
             storage.remove(idx);
         }
     } else {
@@ -123,6 +129,8 @@ pub fn heap_release(storage: &mut HeapStorage, idx: HeapIdx) {
 /// - [3]: upvalue_count
 /// - [4..4+upvalue_count]: upvalues (may contain HeapIdx to other closures)
 pub fn heap_release_closure(storage: &mut HeapStorage, idx: HeapIdx) {
+    #[cfg(mimium_verif)]
+    super::verif::record_heap(b'h', b'-', idx, storage.contains_key(idx), storage.get(idx).map_or(0, |o| o.refcount.wrapping_sub(1)));
     // First, decrement refcount
     let should_free = if let Some(obj) = storage.get_mut(idx) {
         obj.refcount -= 1;
@@ -145,6 +153,8 @@ pub fn heap_release_closure(storage: &mut HeapStorage, idx: HeapIdx) {
         // TODO: Implement proper recursive release based on UpValue::Closed analysis
 
         log::trace!("heap_release_closure: freeing {idx:?}");
+        #[cfg(mimium_verif)]
+        super::verif::record_heap(b'h', b'F', idx, true, 0);
         storage.remove(idx);
     }
 }
